@@ -15,7 +15,8 @@ WHOLE_CONTRACT_PROPS = {'C17', 'C08'}
 TRUSTED = [
     'environment models /verif/env/env.c: element operations (construct/destroy/assign/swap/compare), allocator (allocate/deallocate/max_size/select_on_container_copy_construction/==), scalar helpers - ASSUMED contracts of the container\'s parameters',
     'algorithm summaries in /verif/env/env.c for std::copy/copy_n/move/move_backward/fill/fill_n/swap_ranges (written from [alg.*]; "libstdc++ implements the standard" is assumed)',
-    'std::equal / std::lexicographical_compare / std::remove (C16): uninterpreted, element-consistent results with recorded arguments - the algorithms themselves are assumed, the contracts decide which one is called on which ranges and how the result is combined',
+    'std::equal / std::lexicographical_compare / std::remove / std::remove_if (C16): uninterpreted, element-consistent results with recorded arguments - the algorithms themselves are assumed, the contracts decide which one is called on which ranges and how the result is combined',
+    'std::initializer_list<value_type> (initializer-list overloads): begin () / end () / size () are assumed to describe an array of size () live elements ([support.initlist.access]); the caller\'s erase_if predicate is an opaque call that may throw',
     'caller iterator models (forward, single-pass) and generator model in /verif/env/env.c: protocol violations are failed preconditions',
     'lowering rules r1-r15 and r9b of /verif/emit/emit.py (clang 14 JSON AST of the instantiated members -> C); exceptions lowered to a flag; destructor calls of RAII locals inserted by scope rules',
     'clang 14 front end (template instantiation, overload resolution; exception specifications: IR nounwind attribute for lowering, noexcept-operator probe TU for the declared specification)',
